@@ -38,6 +38,15 @@ def modM : ModItemIn :=
     oracle := [{ remaining := 11, consumed := 3, sig := sigA },
                { remaining := 7, consumed := 3, sig := { ident := "b" } }] }
 
+/-- `mod m { #[cfg(any())] #[inline] pub fn a(d: &impl X) {} pub fn c(d: &impl X) {} }` -/
+def modCfg : ModItemIn :=
+  { ident := "m"
+    body := [p '#', brackets [i "cfg", parens [i "any", parens []]], p '#', brackets [i "inline"],
+             i "pub", i "fn", i "a", parens [i "d", p ':', p '&', i "impl", i "X"], braces [],
+             i "pub", i "fn", i "c", parens [i "d", p ':', p '&', i "impl", i "X"], braces []]
+    oracle := [{ remaining := 9, consumed := 3, sig := sigA },
+               { remaining := 4, consumed := 3, sig := { sigA with ident := "c" } }] }
+
 /-- `pub trait Tr<T> { async fn m(&self, _: T) -> T; }` -/
 def traitTr : TraitItem :=
   { vis := [i "pub"], ident := "Tr"
@@ -63,6 +72,7 @@ def isOk : Outcome → Bool
 theorem fnFoo_expands : isOk (expand .plain [i "pub", i "Foo", p ',', i "mock_api", p '=', i "M", p ',', i "unimock"] (.fn fnFoo)) = true := by decide +kernel
 theorem fnBar_expands : isOk (expand .unimock [i "Bar"] (.fn fnBar)) = true := by decide +kernel
 theorem modM_expands : isOk (expand .export_ [i "pub", parens [i "crate"], i "Foo"] (.mod_ modM)) = true := by decide
+theorem modCfg_expands : isOk (expand .plain [i "Foo"] (.mod_ modCfg)) = true := by decide +kernel
 theorem traitTr_expands : isOk (expand .plain [i "TrImpl", p ',', i "delegate_by", p '=', i "ref"] (.trait traitTr)) = true := by decide
 theorem traitTr_leaf_expands : isOk (expand .unimock [] (.trait traitTr)) = true := by decide
 theorem implX_expands : isOk (expand .plain [i "ref"] (.impl implX)) = true := by decide +kernel
